@@ -720,7 +720,8 @@ func configs(r *vk.Run) []cfg {
 	var cs []cfg
 	cs = append(cs, cfg{Name: "publishers", Alphabet: []string{"In:rtmp", "In:rtsp", "In:cust", "Out", "KickIn", "P", "J", "FeedOld"}, MaxSubs: 1, MaxInputs: 3})
 	cs = append(cs, cfg{Name: "publishers+ps", Alphabet: []string{"In:rtmp", "In:ps", "In:cust", "Out", "KickIn", "P", "J", "T"}, MaxSubs: 1, MaxInputs: 3})
-	cs = append(cs, cfg{Name: "pull-vs-publishers", Alphabet: []string{"In:rtmp", "In:cust", "Out", "KickIn", "P", "J", "ApiStart", "T"}, MaxSubs: 1, MaxInputs: 2})
+	cs = append(cs, cfg{Name: "pull-vs-publishers", Alphabet: []string{"In:rtmp", "In:rtsp", "In:cust", "In:ps", "Out", "KickIn", "P", "J", "ApiStart", "T"}, MaxSubs: 1, MaxInputs: 2})
+	cs = append(cs, cfg{Name: "rtsp-vs-ps", Alphabet: []string{"In:rtsp", "In:ps", "Out", "KickIn", "P", "J"}, MaxSubs: 1, MaxInputs: 3})
 	cs = append(cs, cfg{Name: "subscribers", Alphabet: []string{"In:rtmp", "In:rtsp", "Out", "P", "J", "KickSub", "T"}, MaxSubs: 2, MaxInputs: 2})
 	if !r.Quick() {
 		cs = append(cs, cfg{Name: "everything", Alphabet: []string{"In:rtmp", "In:rtsp", "In:cust", "In:ps", "Out", "KickIn", "P", "J", "KickSub", "FeedOld", "ApiStart", "T"}, MaxSubs: 2, MaxInputs: 3})
